@@ -370,13 +370,18 @@ func runC17(ch *Choices, cfg *RunCfg) (o *Outcome) {
 	body := func(script []c17Op) func(t *Task) {
 		return func(t *Task) {
 			var held []interface{}
+			// every object ever obtained stays reachable until the run ends: objects are identified by
+			// address, and a dropped, collected object's address could otherwise be reused by a fresh one
+			// and look like a resurrected object
+			var ever []interface{}
 			for _, op := range script {
 				switch op.kind {
 				case 'G':
 					t.Emit(evGetInv, 0, nil)
 					x := pool.Get()
 					held = append(held, x)
-					heldObjs[t.ID] = held
+					ever = append(ever, x)
+					heldObjs[t.ID] = ever
 					t.Emit(evGetRet, objID(x), nil)
 				case 'U':
 					if useReal {
